@@ -130,8 +130,13 @@ static int handler_fibre(fibre_t *f)
 	for (;;) {
 		body_enter(FE);
 		for (;;) {
+			/* only this fibre takes events out, so "not empty" can only stay true until it does */
+			bool said_empty = fibre_eventq_empty(evq);
+			simrt_point();
 			evt = fibre_eventq_receive(evq);
 			simrt_point();		/* an interrupt can land between the failed receive and the return */
+			if (!evt && !said_empty)
+				sim_fail("C06", "EVENTQ_EMPTY", "fibre_eventq_empty said an event was waiting but the receive that followed returned nothing");
 			if (!evt)
 				break;
 			evt_t copy;
